@@ -69,6 +69,12 @@ StringKinds == {"id", "type", "mime", "iri", "lang", "str"}
 UniqueTerms(rows) == \A i, j \in 1..Len(rows) : i # j => rows[i].t # rows[j].t
 ASSUME \A g \in GoTypes : UniqueTerms(Props(g))
 
+\* ---- which struct is a view of which (C08; used by Views and Destructure) --------
+\* items and orderedItems are one row; X is a view of g exactly when X's rows are a prefix of g's
+Alias(n) == CASE n = "OrderedItems" -> "Items" [] n = "orderedItems" -> "items" [] OTHER -> n
+RowPrefix(P, Q) == Len(P) <= Len(Q) /\ \A i \in 1..Len(P) : Alias(P[i].t) = Alias(Q[i].t) /\ P[i].k = Q[i].k
+IsViewOf(X, g) == X \in GoTypes /\ g \in GoTypes /\ RowPrefix(Props(X), Props(g))
+
 \* ---- type names ------------------------------------------------------------
 ObjectTypeNames == {"Article", "Audio", "Document", "Event", "Image", "Note", "Page", "Video"}
 ActorTypeNames == {"Application", "Group", "Organization", "Person", "Service"}
